@@ -264,6 +264,7 @@ func CombineLatestWith1[A, B any](obsB Observable[B]) func(Observable[A]) Observ
 					}
 
 					if a != nil && b != nil {
+						verifPoint("combinelatest.loaded")
 						destination.NextWithContext(ctx, lo.T2(*a, *b))
 					}
 				}
@@ -360,6 +361,7 @@ func CombineLatestWith2[A, B, C any](obsB Observable[B], obsC Observable[C]) fun
 					}
 
 					if a != nil && b != nil && c != nil {
+						verifPoint("combinelatest.loaded")
 						destination.NextWithContext(ctx, lo.T3(*a, *b, *c))
 					}
 				}
@@ -482,6 +484,7 @@ func CombineLatestWith3[A, B, C, D any](obsB Observable[B], obsC Observable[C], 
 					}
 
 					if a != nil && b != nil && c != nil && d != nil {
+						verifPoint("combinelatest.loaded")
 						destination.NextWithContext(ctx, lo.T4(*a, *b, *c, *d))
 					}
 				}
@@ -629,6 +632,7 @@ func CombineLatestWith4[A, B, C, D, E any](obsB Observable[B], obsC Observable[C
 					}
 
 					if a != nil && b != nil && c != nil && d != nil && e != nil {
+						verifPoint("combinelatest.loaded")
 						destination.NextWithContext(ctx, lo.T5(*a, *b, *c, *d, *e))
 					}
 				}
@@ -785,6 +789,7 @@ func CombineLatestAll[T any]() func(Observable[Observable[T]]) Observable[[]T] {
 						result[i] = *v
 					}
 
+					verifPoint("combinelatest.loaded")
 					destination.NextWithContext(ctx, result)
 				}
 			}
@@ -1177,6 +1182,7 @@ func ZipWith1[A, B any](obsB Observable[B]) func(Observable[A]) Observable[lo.Tu
 					valueB = valueB[1:]
 
 					mu.Unlock() // unlock before calling destination.Next to prevent long locks
+					verifPoint("zip.popped")
 
 					destination.NextWithContext(ctx, lo.T2(*a, *b)) // @TODO: Send the last context ?
 
@@ -1243,6 +1249,7 @@ func ZipWith2[A, B, C any](obsB Observable[B], obsC Observable[C]) func(Observab
 					valueC = valueC[1:]
 
 					mu.Unlock() // unlock before calling destination.Next to prevent long locks
+					verifPoint("zip.popped")
 
 					destination.NextWithContext(ctx, lo.T3(*a, *b, *c)) // @TODO: Send the last context ?
 
@@ -1316,6 +1323,7 @@ func ZipWith3[A, B, C, D any](obsB Observable[B], obsC Observable[C], obsD Obser
 					valueD = valueD[1:]
 
 					mu.Unlock() // unlock before calling destination.Next to prevent long locks
+					verifPoint("zip.popped")
 
 					destination.NextWithContext(ctx, lo.T4(*a, *b, *c, *d)) // @TODO: Send the last context ?
 
@@ -1397,6 +1405,7 @@ func ZipWith4[A, B, C, D, E any](obsB Observable[B], obsC Observable[C], obsD Ob
 					valueE = valueE[1:]
 
 					mu.Unlock() // unlock before calling destination.Next to prevent long locks
+					verifPoint("zip.popped")
 
 					destination.NextWithContext(ctx, lo.T5(*a, *b, *c, *d, *e)) // @TODO: Send the last context ?
 
@@ -1487,6 +1496,7 @@ func ZipWith5[A, B, C, D, E, F any](obsB Observable[B], obsC Observable[C], obsD
 					valueF = valueF[1:]
 
 					mu.Unlock() // unlock before calling destination.Next to prevent long locks
+					verifPoint("zip.popped")
 
 					destination.NextWithContext(ctx, lo.T6(*a, *b, *c, *d, *e, *f)) // @TODO: Send the last context ?
 
@@ -1564,6 +1574,7 @@ func zipAllInnerSubscriptions[T any](outerCtx context.Context, sources []Observa
 			}
 
 			mu.Unlock() // unlock before calling destination.Next to prevent long locks
+			verifPoint("zipall.popped")
 
 			destination.NextWithContext(ctx, result) // @TODO: Send the last context ?
 
